@@ -9,7 +9,7 @@ CONSTANTS
   TNames = {"map", "into_existing", "from_owned", "ref_into"}
   Hints = {"-", "struct"}
   TMenu = {"ghosts"}
-  MMenu = {"map", "ghost_d", "ghost_owned_d", "ghost_ref_d", "parent0", "parentp_idx", "parentp_untyped", "parentp_untyped2", "parentp_untyped_deep"}
+  MMenu = {"map", "ghost_d", "ghost_owned_d", "ghost_ref_d", "parent0", "parentp", "parentp_idx", "parentp_untyped", "parentp_untyped2", "parentp_untyped_deep"}
   FixedTraits <- NoTraits
   SpellAll = FALSE
   TCps = {"-"}
